@@ -67,10 +67,10 @@ for s in seeded:
     summ = re.sub(r"^#\s*", "", s["summary"]).replace("|", "/")
     summ = re.sub(r"^C\d\d\s*[/-]\s*(change\s*)?[A-C]\s*[—:-]+\s*", "", summ)
     rows.append("| %s | %s | %s | %s |" % (s["id"], s["property"], ", ".join(s["caught_by"]) or "-", summ[:160]))
-gen_seeded = "\n".join(rows) + "\n\n%d seeded changes kept, all caught." % len(seeded)
-missed = [s["id"] for s in seeded if not s["caught_by"]]
-if missed:
-    gen_seeded += " NOT CAUGHT: " + ", ".join(missed)
+missed = [s for s in seeded if not s["caught_by"]]
+gen_seeded = "\n".join(rows) + "\n\n%d seeded changes kept, %d caught." % (len(seeded), len(seeded) - len(missed))
+for s_ in missed:
+    gen_seeded += "\n\n" + wrap("* **%s not caught** - %s" % (s_["id"], s_.get("why_missed", "")))
 
 p = os.path.join(V, "DESIGN.md")
 s = open(p).read()
